@@ -5,8 +5,9 @@ worktree (suite green with the change, demo fails with / passes without), runs c
 import json, os, shutil, subprocess, sys, tempfile, re
 pid, k = sys.argv[1], sys.argv[2]
 extra = sys.argv[3:]
-src = "/tmp/seed_%s" % pid
-dst = "/verif/seeded/%s-%s" % (pid, k)
+# SEED_SRC_PREFIX=/tmp/seed3_ SEED_LABEL_OFFSET=2 records a later wave
+src = os.environ.get("SEED_SRC_PREFIX", "/tmp/seed_") + pid
+dst = "/verif/seeded/%s-%s" % (pid, int(k) + int(os.environ.get("SEED_LABEL_OFFSET", "0")))
 os.makedirs(dst, exist_ok=True)
 patch = os.path.join(src, "patch%s.diff" % k)
 for a, b in (("patch%s.diff" % k, "patch.diff"), ("demo%s.py" % k, "demo.py"), ("notes%s.txt" % k, "notes.txt")):
@@ -20,7 +21,7 @@ os.rmdir(wt)
 sh("git -C /repo worktree add -q %s HEAD" % wt)
 tmp = tempfile.mkdtemp(prefix="rec_tmp_", dir="/tmp")
 env = "TMPDIR=%s PYTHONPATH=%s/src" % (tmp, wt)
-meta = {"property": pid, "seed": int(k), "repo_head": sh("git -C /repo rev-parse --short HEAD").stdout.strip()}
+meta = {"property": pid, "seed": int(k) + int(os.environ.get("SEED_LABEL_OFFSET", "0")), "repo_head": sh("git -C /repo rev-parse --short HEAD").stdout.strip()}
 r = sh("cd %s && %s /venv/bin/python %s/demo.py" % (wt, env, dst))
 meta["demo_on_unchanged_tree_rc"] = r.returncode
 ap = sh("git -C %s apply %s" % (wt, patch))
